@@ -51,7 +51,7 @@ def WrapKind.name : WrapKind → Str
 
 /-- the parameterized core types of the fragment -/
 inductive TKind where
-  | integer | string | boolean | enum | regexp | pattern | variant | array | hash | collection | tuple
+  | integer | string | boolean | enum | regexp | pattern | variant | array | hash | collection | tuple | struct
   | wrap (k : WrapKind)
   deriving DecidableEq, Repr
 
@@ -67,10 +67,11 @@ def TKind.name : TKind → Str
   | .hash => "Hash".toList
   | .collection => "Collection".toList
   | .tuple => "Tuple".toList
+  | .struct => "Struct".toList
   | .wrap k => k.name
 
 def allKinds : List TKind :=
-  [.integer, .string, .boolean, .enum, .regexp, .pattern, .variant, .array, .hash, .collection, .tuple,
+  [.integer, .string, .boolean, .enum, .regexp, .pattern, .variant, .array, .hash, .collection, .tuple, .struct,
    .wrap .optional, .wrap .notUndef, .wrap .type_, .wrap .sensitive, .wrap .iterable, .wrap .iterator]
 
 /-- `coreTypes[name]` restricted to the parameterized types of the fragment -/
@@ -91,6 +92,7 @@ inductive Ty where
   | hash (k v : Ty) (lo hi : Int)
   | collection (lo hi : Int)
   | tuple (ts : List Ty) (sz : Option (Int × Int))   -- `size` may be nil
+  | struct (ms : List (Str × Bool × Ty))            -- per element: name, "the key is an Optional[…]", value type
   deriving Repr, Inhabited
 
 mutual
@@ -109,10 +111,15 @@ def Ty.beq : Ty → Ty → Bool
   | .hash a b c d, .hash e f g h => Ty.beq a e && Ty.beq b f && c == g && d == h
   | .collection a b, .collection c d => a == c && b == d
   | .tuple a b, .tuple c d => Ty.beqList a c && b == d
+  | .struct a, .struct b => Ty.beqMembers a b
   | _, _ => false
 def Ty.beqList : List Ty → List Ty → Bool
   | [], [] => true
   | a :: as, b :: bs => Ty.beq a b && Ty.beqList as bs
+  | _, _ => false
+def Ty.beqMembers : List (Str × Bool × Ty) → List (Str × Bool × Ty) → Bool
+  | [], [] => true
+  | (n, o, a) :: as, (m, p, b) :: bs => n == m && o == p && Ty.beq a b && Ty.beqMembers as bs
   | _, _ => false
 end
 
@@ -123,7 +130,7 @@ def tyString : Ty := .named "String".toList
 /-- the parameterless types of the fragment: a bare name that resolves to a type which prints as that name -/
 def plainNames : List Str :=
   ["Any", "Unit", "Undef", "Default", "Scalar", "ScalarData", "Numeric", "Data", "RichData", "Binary", "Float", "String",
-   "Callable", "Struct", "Timespan", "Timestamp", "SemVer", "SemVerRange", "URI", "Runtime", "Object", "Init",
+   "Callable", "Timespan", "Timestamp", "SemVer", "SemVerRange", "URI", "Runtime", "Object", "Init",
    "TypeSet"].map String.toList
 
 /-! ### printing -/
@@ -145,6 +152,34 @@ def Ty.isAny : Ty → Bool
 def Ty.isUnit : Ty → Bool
   | .named n => n == "Unit".toList
   | _ => false
+
+/-- the parameterless types that accept `undef` (`isAssignable(T, Undef)`): `Any` (`a == anyTypeDefault`), `Unit`
+    (`UnitType.IsAssignable` is constantly true), `Undef`, the aliases `Data` and `RichData` (a Variant with an `Undef`
+    member) and the default `Init` (its contained type is nil: it accepts everything) -/
+def undefNames : List Str := ["Any", "Unit", "Undef", "Data", "RichData", "Init"].map String.toList
+
+mutual
+/-- `isAssignable(t, undefTypeDefault)` — decides how a Struct member key is printed (`StructType.Parameters`) and whether a
+    plain string key makes an optional member (`NewStructElement`).  `GuardedIsAssignable(t, Undef)`: identity / `Any`,
+    then `t.IsAssignable(Undef)`: `OptionalType` accepts it, `NotUndefType` refuses it, `VariantType` accepts it when a
+    member does; every other type of the fragment answers false for an `*UndefType`. -/
+def Ty.acceptsUndef : Ty → Bool
+  | .named n => undefNames.contains n
+  | .wrap .optional _ => true
+  | .variant ts => Ty.anyAcceptsUndef ts
+  | _ => false
+def Ty.anyAcceptsUndef : List Ty → Bool
+  | [] => false
+  | t :: ts => Ty.acceptsUndef t || Ty.anyAcceptsUndef ts
+end
+
+/-- the key of a Struct member as `StructType.Parameters` writes it: the bare name when the optionality of the key is what
+    the value type implies (a plain string key is optional exactly when the value type accepts `undef`), `Optional['n']`
+    for an optional key of a value that refuses `undef`, `NotUndef['n']` for a required key of a value that accepts it -/
+def memberKey (n : Str) (opt ov : Bool) : Val :=
+  if opt = ov then .str n
+  else if opt then .tyx "Optional".toList (some [.str n])
+  else .tyx "NotUndef".toList (some [.str n])
 
 mutual
 /-- the expression `Name` / `Name[p, …]` that `TypeToString` writes -/
@@ -182,9 +217,14 @@ def tyExpr : Ty → Val
       (match sz with
        | none => []
        | some r => if ts.isEmpty ∧ r.1 = 0 ∧ r.2 = i64max then [] else sizeParams r.1 r.2))
+  | .struct ms => tname .struct (if ms.isEmpty then [] else [.hash (tyMembers ms)])
 def tyExprs : List Ty → List Val
   | [] => []
   | t :: ts => tyExpr t :: tyExprs ts
+/-- `StructType.Parameters`: one hash entry per element -/
+def tyMembers : List (Str × Bool × Ty) → List (Val × Val)
+  | [] => []
+  | (n, o, t) :: ms => (memberKey n o t.acceptsUndef, tyExpr t) :: tyMembers ms
 end
 
 /-- `T.String()` -/
@@ -201,6 +241,7 @@ inductive Arg where
   | rx (s : Str)
   | bool (b : Bool)
   | arr (as : List Arg)
+  | hash (es : List (Arg × Arg))
   deriving Repr, Inhabited
 
 /-- `NewIntegerType`: `min > max` is an illegal-arguments error -/
@@ -347,6 +388,34 @@ where argsDepth : List Arg → Nat
   | [] => 0
   | a :: as => max (argDepth a) (argsDepth as)
 
+/-- `NewStructElement(key, value)`: name and optionality of the key; `none` = illegal argument -/
+def structKey (value : Ty) : Arg → Option (Str × Bool)
+  | .str s => if s.isEmpty then none else some (s, value.acceptsUndef)      -- `stringValue`
+  | .ty (.strVal s) => if s.isEmpty then none else some (s, false)          -- `*vcStringType`
+  | .ty (.wrap .optional (.strVal s)) => if s.isEmpty then none else some (s, true)
+  | .ty (.wrap .notUndef (.strVal s)) => if s.isEmpty then none else some (s, false)
+  | _ => none
+
+/-- the loop of `newStructType2` over the entries of the hash -/
+def structMembers : List (Arg × Arg) → Option (List (Str × Bool × Ty))
+  | [] => some []
+  | (k, .ty t) :: es =>
+    match structKey t k, structMembers es with
+    | some (n, o), some ms => some ((n, o, t) :: ms)
+    | _, _ => none
+  | _ => none
+
+/-- `newStructType2`: no argument or an empty hash is the default Struct; a single Array argument holds the arguments -/
+def structArgs (fuel : Nat) (args : List Arg) : Option Ty :=
+  match fuel with
+  | 0 => none
+  | f + 1 =>
+    match args with
+    | [] => some (.struct [])
+    | [.arr as] => structArgs f as
+    | [.hash es] => (structMembers es).map .struct
+    | _ => none
+
 def wrapOf (k : WrapKind) (args : List Arg) : Option Ty :=
   match args with
   | [.ty t] => some (.wrap k t)
@@ -428,6 +497,7 @@ def createK (rxOK : Str → Bool) (kd : TKind) (args : List Arg) : Option Ty :=
     | [a, b] => (sizes2 a b).map fun r => .collection r.1 r.2
     | _ => none
   | .tuple => tupleCreate args
+  | .struct => structArgs fuel args
   | .wrap k => wrapOf k args
 
 /-- `ResolveWithParams(c, name, args)` -/
@@ -449,6 +519,7 @@ def defaultOf : TKind → Ty
   | .hash => .hash tyAny tyAny 0 i64max
   | .collection => .collection 0 i64max
   | .tuple => .tuple [] (some (0, i64max))
+  | .struct => .struct []
   | .wrap k => .wrap k tyAny
 
 /-- `Resolve(c, name)` for a bare name: the default type of that name -/
@@ -472,10 +543,16 @@ def resolveArg (rxOK : Str → Bool) : Expr → Option Arg
   | .regexp s => some (.rx s)
   | .bool b => some (.bool b)
   | .arr es => (resolveArgs rxOK es).map .arr
+  | .hash es => (resolveEntries rxOK es).map .hash
   | _ => none
 def resolveArgs (rxOK : Str → Bool) : List Expr → Option (List Arg)
   | [] => some []
   | e :: es => (resolveArg rxOK e).bind fun a => (resolveArgs rxOK es).map fun as => a :: as
+/-- `resolveEntry` over the entries of a hash argument -/
+def resolveEntries (rxOK : Str → Bool) : List (Expr × Expr) → Option (List (Arg × Arg))
+  | [] => some []
+  | (k, v) :: es =>
+    (resolveArg rxOK k).bind fun a => (resolveArg rxOK v).bind fun b => (resolveEntries rxOK es).map fun r => (a, b) :: r
 end
 
 /-- `Context.ParseType(text)` on the fragment -/
